@@ -465,7 +465,9 @@ func c01Proc(c *Ctx, cs c01Case) {
 // ---------- generators ----------
 
 var c01Letters = []rune{'a', 'b', 'c', 'd', 'e', 'o', 'x', 'A', 'B', 'E', 'O', 'Z', '0', '7'}
-var c01Accented = []rune{0xe9, 0xc9, 0xe0, 0xf6, 0xd6, 0xf1, 0x4e2d, 0x130, 0x1c5, 0x1c6, 0x212a, 0xdf, 0x3a3, 0x3c3}
+var c01Accented = []rune{0xe9, 0xc9, 0xe0, 0xf6, 0xd6, 0xf1, 0x4e2d, 0x130, 0x1c5, 0x1c6, 0x212a, 0xdf, 0x3a3, 0x3c3,
+	// capitals whose lower-case form alone is in the normalisation table (Latin Extended, Vietnamese) and those forms
+	0x10c, 0x10d, 0x17d, 0x17e, 0x150, 0x151, 0x141, 0x142, 0x1ea0, 0x1ea1}
 var c01Punct = []rune{'_', '-', '/', '.', ',', ':'}
 var c01Ops = []rune{'\'', '^', '$', '!', '|', '\\'}
 
@@ -473,7 +475,9 @@ var c01Ops = []rune{'\'', '^', '$', '!', '|', '\\'}
 var c01Swap = map[rune][]rune{'e': {0xe9, 'E', 0xc9}, 0xe9: {'e', 0xc9, 'E'}, 0xc9: {0xe9, 'e', 'E'}, 'E': {'e', 0xc9, 0xe9},
 	'a': {0xe0, 'A'}, 0xe0: {'a', 'A'}, 'A': {'a', 0xe0}, 'o': {0xf6, 'O', 0xd6}, 0xf6: {'o', 0xd6}, 0xd6: {0xf6, 'o', 'O'}, 'O': {'o', 0xd6},
 	'b': {'B'}, 'B': {'b'}, 'n': {0xf1}, 0xf1: {'n'}, 0x1c5: {0x1c6}, 0x1c6: {0x1c5}, 'k': {0x212a}, 0x212a: {'k'}, 'i': {0x130}, 0x130: {'i'},
-	0x3a3: {0x3c3}, 0x3c3: {0x3a3}, 'z': {'Z'}, 'Z': {'z'}, 'x': {'X'}, 'c': {'C'}, 'd': {'D'}}
+	0x3a3: {0x3c3}, 0x3c3: {0x3a3}, 'z': {'Z', 0x17e, 0x17d}, 'Z': {'z', 0x17d}, 'x': {'X'}, 'c': {'C', 0x10d, 0x10c}, 'd': {'D'},
+	0x10c: {0x10d, 'c', 'C'}, 0x10d: {0x10c, 'c'}, 0x17d: {0x17e, 'z'}, 0x17e: {0x17d, 'z'}, 0x150: {0x151, 'o'}, 0x151: {0x150, 'o'},
+	0x141: {0x142, 'l'}, 0x142: {0x141, 'l'}, 'l': {0x141, 0x142, 'L'}, 0x1ea0: {0x1ea1, 'a'}, 0x1ea1: {0x1ea0, 'a'}}
 
 func c01Word(r *RNG) []rune {
 	n := 1 + r.Intn(4)
